@@ -10,7 +10,7 @@ MCCounts == -1..4
 MCPreds == {"pos", "one", "lt5", "neg"}
 MCMaps == {"inc", "dbl"}
 MCInits == {0, 1}
-MCEndlessTake == 3
+MCEndlessTake == 5
 RECURSIVE Dedup(_, _)
 Dedup(s, seen) == IF s = <<>> THEN <<>>
                   ELSE IF Head(s) \in seen THEN Dedup(Tail(s), seen)
